@@ -1,5 +1,6 @@
-\* C20 probe: the named deviation must still be reachable, i.e. this invariant must be VIOLATED
+\* C20 probe on the pinned ORIGINAL variant (Fixed = FALSE): the named deviation must be reachable, i.e. this invariant must be VIOLATED
 CONSTANT Slices = {"op_det"}
+CONSTANT Fixed = FALSE
 INIT Init
 NEXT Next
 INVARIANT Probe_NoChainedInvokeEmptyDict
